@@ -167,6 +167,14 @@ func (r *Run) Violate(v Violation) {
 	}
 }
 
+// IsKnown reports whether a signature is listed as a known finding of this property.
+func (r *Run) IsKnown(sig string) bool {
+	r.mu.Lock()
+	defer r.mu.Unlock()
+	_, ok := r.known[sig]
+	return ok
+}
+
 // NumNew returns the number of unlisted violations so far.
 func (r *Run) NumNew() int {
 	r.mu.Lock()
